@@ -10,7 +10,7 @@
 (* known_findings.json (generated into KfOpen.tla for every run); a fixed  *)
 (* finding is not open, so its behaviour is a violation if it returns.     *)
 (***************************************************************************)
-EXTENDS FsHandles, KfOpen
+EXTENDS FsEnum, KfOpen
 
 Dev(kf, o, inv, skip) == [res |-> o.res, st |-> o.st, kf |-> kf, inv |-> inv, skip |-> skip]
 Strict(o) == [res |-> o.res, st |-> o.st, kf |-> "", inv |-> "ok", skip |-> FALSE]
@@ -259,7 +259,7 @@ KF27(impl, st, c) ==
          ELOOP, and EvalSymlinks gives up after 64 where Go goes on to 255. *)
 KF29(impl, st, c) ==
     IF Mem(impl) /\ c.op \notin HOps THEN
-        LET o == NsApply([st EXCEPT !.lb = MemLinkBudget, !.elb = MemLinkBudget], c) IN
+        LET o == Apply([st EXCEPT !.lb = MemLinkBudget, !.elb = MemLinkBudget], c) IN
         {Dev("KF29", [res |-> o.res, st |-> [o.st EXCEPT !.lb = st.lb, !.elb = st.elb]], "ok", FALSE)}
     ELSE {}
 
@@ -293,14 +293,14 @@ DevOutcomes(impl, st, c) ==
     LET t == KFTable(impl, st, c)
         d1 == UNION {t[k] : k \in (OpenKF \cap DOMAIN t) \ {"KF34"}}
         \* KF34 applies to whatever outcome carries ELOOP, strict or deviating
-        eloop == {o \in d1 \cup {Strict(y) : y \in StrictOutcomes(st, c)} : o.res.err = "ELOOP"}
+        eloop == {o \in d1 \cup {Strict(y) : y \in AllStrictOutcomes(st, c)} : o.res.err = "ELOOP"}
         w == IF WinTyped(impl) /\ "KF34" \in OpenKF
              THEN {[o EXCEPT !.res.err = "LINUX-ELOOP", !.kf = IF o.kf = "" THEN "KF34" ELSE o.kf \o "+KF34"] : o \in eloop}
              ELSE {} IN
     d1 \cup w
 
 Outcomes(impl, st, c) ==
-    IF impl = "osfs" THEN {Strict(o) : o \in StrictOutcomes(st, c)}
-    ELSE {Strict(o) : o \in StrictOutcomes(st, c)} \cup DevOutcomes(impl, st, c)
+    IF impl = "osfs" THEN {Strict(o) : o \in AllStrictOutcomes(st, c)}
+    ELSE {Strict(o) : o \in AllStrictOutcomes(st, c)} \cup DevOutcomes(impl, st, c)
 
 =============================================================================
